@@ -271,6 +271,13 @@ impl CodeCache {
     self.code_blocks.verif_entries()
   }
 
+  /// Host addresses of the shared prologue (the function `call` enters) and
+  /// of the shared epilogue, so that a harness can make the same call itself
+  pub fn verif_entry_points(&self) -> (usize, usize) {
+    let memory_start = self.get_memory_start_address();
+    (memory_start + self.prologue_location, memory_start + self.epilogue_location)
+  }
+
   /// Bytes of the translation arena not yet written
   pub fn verif_space_remaining(&self) -> usize {
     self.exec_memory.get_memory_area().len() - self.write_cursor
